@@ -13,13 +13,39 @@ Excluded construct (known finding C02/with-outer, see known/C02.txt): a `with` s
 (including nested functions) references a renamable binding that is declared outside the innermost
 function containing that `with`.  Generators never reference an outer local from inside a with body.
 Two more excluded constructs (known findings): a loop body block that re-declares the loop variable's name
-and refers to that name before the inner declaration (C02/tdz); declarations inside a class static block (C02/static-var, C02/static-let).
+and refers to that name before the inner declaration (C02/tdz); declarations inside a class static block (C02/static-var, C02/static-let);
+an array or object literal containing identifiers inside the body of an object-literal method/accessor that is
+written inside a parenthesised expression (C02/paren-method).
 """
 
 # the order in which the minifier hands out names is private to it; these are all names of length 1
 ONE = list('abcdefghijklmnopqrstuvwxyzABCDEFGHIJKLMNOPQRSTUVWXYZ_$')
 FIRST = list('etnsoiarcldu')                       # a guess at the first ones, used as preferred free names
 TWO = ['ee', 'te', 'ne', 'et', 'tt', 'nt', 'of', 'as', 'is', 'no', 'on', 'to', 'at', 'or', 'dn', 'io', 'ie']   # valid identifiers only
+
+
+# ------------------------------------------------------------------------------------------------
+# reference contexts: one observable statement that refers to the given names
+# ------------------------------------------------------------------------------------------------
+PLAIN_CTX = [
+    'out(%(a)s);', 'out((%(a)s));', 'out((%(a)s,%(b)s));', 'out(%(a)s+"|"+%(b)s);', 'out(%(a)s?%(b)s:%(c)s);',
+    'out(typeof %(a)s,%(b)s);', 'out((()=>%(a)s)());', 'out((function(){return %(a)s})());', 'out(((p=%(a)s)=>p)());',
+    'out(`${%(a)s}-${%(b)s}`);', 'out(%(a)s??%(b)s,%(a)s||%(b)s,%(a)s&&%(b)s);', 'out((q=>q+%(a)s)("q"));',
+    'out(((...p)=>p.length)(%(a)s,%(b)s));', 'out(String(%(a)s).length,%(b)s);', 'out(%(a)s===%(b)s,%(a)s!=%(c)s);',
+    'if(%(a)s)out(%(b)s);else out(%(c)s);', 'out(%(a)s,%(a)s,%(a)s);',
+]
+LITERAL_CTX = [
+    'out([%(a)s,%(b)s]);', 'out({%(a)s});', 'out({k:%(a)s,%(b)s});', 'out({[%(a)s]:%(b)s});', 'out(...[%(a)s,%(b)s]);',
+    'out([...[%(a)s],%(b)s]);', 'out({...{%(a)s}});', 'out((({%(a)s:p})=>p)({%(a)s:%(b)s}));', 'out((([p,q])=>q)([%(a)s,%(b)s]));',
+    'out((()=>({%(a)s,m(){return %(b)s}}))().m());', 'out([%(a)s].map(p=>[p,%(b)s]));', 'out(new(class{f=%(a)s;g(){return[this.f,%(b)s]}})().g());',
+    'out({get p(){return %(a)s}}.p,[%(b)s][0]);',
+]
+
+
+def ref(rnd, names, plain=False):
+    a, b, c = (rnd.choice(names) for _ in range(3))
+    forms = PLAIN_CTX if plain or rnd.random() < 0.5 else LITERAL_CTX
+    return rnd.choice(forms) % dict(a=a, b=b, c=c)
 
 
 # ------------------------------------------------------------------------------------------------
@@ -76,34 +102,31 @@ def render_tree(t, rnd):
     for nm in t['top']:
         out.append('let %s="T_%s";' % (nm, nm))
 
-    def body(i, inside_function_top):
-        u = units[i]
-        s = []
-        for nm in u['ls']:
-            s.append('let %s="L%d_%s";' % (nm, i, nm))
-        return s
-
-    def inner(i):
+    def inner(i, pm):
         u = units[i]
         s = []
         for nm in u['vs']:
             s.append('var %s="V%d_%s";' % (nm, i, nm))
         for nm in u['us']:
-            s.append('out("u%d",%s);' % (i, nm))
+            if rnd.random() < 0.6:
+                s.append('out("u%d",%s);' % (i, nm))
+            else:
+                s.append(ref(rnd, [nm], plain=pm))
         for k in kids.get(i + 1, []):
-            s.append(unit(k))
+            s.append(unit(k, pm))
         return ''.join(s)
 
-    def unit(i):
+    def unit(i, pm=False):
         u = units[i]
         if u['kind'] == 'F':
             ps = ','.join(u['ps'])
             args = ','.join('"P%d_%s"' % (i, p) for p in u['ps'])
             lets = ''.join('let %s="L%d_%s";' % (nm, i, nm) for nm in u['ls'])
-            b = inner(i)
+            style = rnd.choice(['iife', 'arrow', 'named', 'method'])
+            # (inside a parenthesised object-literal method no array/object literals: known finding C02/paren-method)
+            b = inner(i, pm or style == 'method')
             if u['w']:
                 b = 'with({}){' + b + '}'
-            style = rnd.choice(['iife', 'arrow', 'named', 'method']) if not u['w'] else rnd.choice(['iife', 'named'])
             if style == 'iife':
                 return '(function(%s){%s%s})(%s);' % (ps, lets, b, args)
             if style == 'arrow':
@@ -113,7 +136,7 @@ def render_tree(t, rnd):
             return '({m(%s){%s%s}}).m(%s);' % (ps, lets, b, args)
         # block unit: every lexical scope kind the minifier renames on entry
         ls = list(u['ls'])
-        b = inner(i)
+        b = inner(i, pm)
         styles = ['block', 'switch', 'if', 'finally', 'try']
         if len(ls) == 1:
             styles += ['catch', 'forof', 'for']
@@ -316,7 +339,26 @@ def hoisting(rnd):
         'function f(%(a)s){if(%(a)s){var %(b)s="B";let %(c)s="C";out(%(b)s,%(c)s)}else{var %(d)s="D";const %(c)s="C2";out(%(d)s,%(c)s)}switch(%(a)s){case"A":var %(e)s="E";let %(b)s="lb";out(%(e)s,%(b)s)}out(%(a)s,%(b)s,%(d)s,%(e)s,typeof %(g)s)}f("A");',
         'function f(){out(%(a)s);{let %(b)s="B";{let %(c)s="C";{var %(a)s="A";out(%(a)s,%(b)s,%(c)s)}}}var %(d)s="D";out(%(a)s,%(d)s,typeof %(g)s)}f();',
     ]
-    return rnd.choice(forms) % dict(a=a, b=b, c=c, d=d, e=e, g=g)
+    if rnd.random() < 0.5:
+        return rnd.choice(forms) % dict(a=a, b=b, c=c, d=d, e=e, g=g)
+    # the surviving `var` statement sits inside nested lexical blocks; other vars of the function join it there
+    names = rnd.sample(FIRST + ['x', 'y', 'z', 'w', 'k'], 9)
+    lex, vs = names[:4], names[4:]
+    depth = rnd.randint(1, 3)
+    inner = 'var %s;' % ','.join('%s="V%d"' % (v, i) for i, v in enumerate(vs[:rnd.randint(1, 3)]))
+    inner += ''.join('out(%s);' % v for v in vs)
+    for dpt in range(depth):
+        l = lex[dpt]
+        wrap = rnd.choice(['{let %s="L%d";out(%s);%s}', 'for(let %s of ["L%d"]){out(%s);%s}', 'try{throw "L%d"}catch(%s){out(%s);%s}',
+                           'switch(0){default:const %s="L%d";out(%s);%s}'])
+        if wrap.startswith('try'):
+            inner = wrap % (dpt, l, l, inner)
+        else:
+            inner = wrap % (l, dpt, l, inner)
+    rest = ''.join(rnd.choice(['var %s="W%d";', '{var %s="W%d";}', 'if(out){var %s="W%d"}else{out(0)}']) % (v, i) for i, v in enumerate(vs[3:]))
+    order = [inner, rest]
+    rnd.shuffle(order)
+    return 'function f(%s){%s%s%s}f("P");' % (lex[3], ''.join(order), ''.join('out(%s);' % v for v in vs), 'out(typeof %s);' % g)
 
 
 def with_own(rnd):
@@ -327,6 +369,9 @@ def with_own(rnd):
         'function f(%(a)s){let %(b)s="B";with({%(b)s:"wb",%(a)s:"wa"}){out(%(a)s,%(b)s);(function(%(c)s){let %(d)s=%(c)s+"!";out(%(c)s,%(d)s)})("C")}}f("A");',
         'function g(%(d)s){function f(%(a)s){var %(b)s="B";with({%(b)s:"wb"}){out(%(a)s,%(b)s)}}f(%(d)s);let %(c)s="C";out(%(c)s,%(d)s)}g("D");',
         'function f(%(a)s){{let %(b)s="B";with({}){out(%(a)s,%(b)s)}}for(let %(c)s of [1])with({%(c)s:2})out(%(c)s)}f("A");',
+        '({m(%(a)s,%(b)s){var %(c)s="C";with({%(c)s:"wc",%(a)s:"wa"}){out(%(a)s,%(b)s,%(c)s)}return %(c)s}}).m("A","B");',
+        '((%(a)s,%(b)s)=>{let %(c)s="C";with({%(c)s:"wc",%(b)s:"wb"}){out(%(a)s,%(b)s,%(c)s)}})("A","B");',
+        'function f(%(a)s){try{throw "E"}catch(%(b)s){with({%(b)s:"wb"}){out(%(a)s,%(b)s)}}switch(1){case 1:let %(c)s="C";with({%(c)s:"wc"})out(%(c)s)}}f("A");',
     ]
     return rnd.choice(forms) % dict(a=a, b=b, c=c, d=d)
 
@@ -345,6 +390,7 @@ def module_program(rnd):
 # random nesting
 # ------------------------------------------------------------------------------------------------
 POOL = ['e', 't', 'n', 's', 'o', 'i', 'a', 'r', 'x', 'y', '$', '_', 'ee', 'te', 'v1', 'E', 'T']
+FN_POOL = ['fe', 'ft', 'nn', 'F1', 'tt']
 
 
 class _Gen:
@@ -356,13 +402,16 @@ class _Gen:
         self.r = rnd
         self.maxdepth = maxdepth
         self.n = 0
+        self.paren_method = 0     # >0 while generating the body of an object-literal method written inside (...)
 
     def val(self, name):
         self.n += 1
         return '"%d_%s"' % (self.n, name)
 
     def uses(self, k):
-        return ''.join('out(%s);' % self.r.choice(POOL) for _ in range(k))
+        # (no array/object literal with identifiers inside a parenthesised object-literal method:
+        #  known finding C02/paren-method)
+        return ''.join(ref(self.r, POOL, plain=self.paren_method > 0) for _ in range(k))
 
     def scope(self, depth, is_func, no_let, no_var):
         """no_let: names a lexical declaration of THIS scope must avoid; no_var: names a var written
@@ -396,18 +445,27 @@ class _Gen:
         if k in ('func', 'arrow', 'method', 'named'):
             ps = r.sample(POOL, r.choice([0, 1, 2, 3]))
             args = ','.join(self.val(p) for p in ps)
+            if k == 'method':
+                self.paren_method += 1
             body = self.func_body(depth, ps)
+            if k == 'method':
+                self.paren_method -= 1
             pl = ','.join(ps)
             if k == 'func':
                 return '(function(%s){%s})(%s);' % (pl, body, args)
             if k == 'arrow':
                 return '((%s)=>{%s})(%s);' % (pl, body, args)
             if k == 'named':
-                fn = r.choice(POOL)
+                # the function's own name is never one of the names that references use: a function value put
+                # into a string context would expose its source text (reflection, outside the property)
+                fn = r.choice(FN_POOL)
                 return '(function %s(%s){out(typeof %s);%s})(%s);' % (fn, pl, fn, body, args)
             return '({m(%s){%s}}).m(%s);' % (pl, body, args)
         if k == 'getter':
-            return '({get g(){%s}}).g;' % self.func_body(depth, [])
+            self.paren_method += 1
+            body = self.func_body(depth, [])
+            self.paren_method -= 1
+            return '({get g(){%s}}).g;' % body
         if k == 'block':
             return '{%s}' % self.scope(depth, False, set(), no_var)
         if k == 'if':
